@@ -52,8 +52,10 @@ def layer_case(rnd, center_only=None):
   cin, cout = rnd.choice([1, 2]), rnd.choice([1, 2, 3])
   nch = cin if dw else cout
   log = []
+  # (ema_freeze_delay: the step after which training freezes the moving statistics; irrelevant to inference, which
+  #  always uses the moving statistics and never updates anything)
   kw = dict(kernel_size=(kh, kw_), strides=(s, s), padding=pad, use_bias=usebias, folding_mode=mode, epsilon=EPS,
-            center=center, scale=scale)
+            center=center, scale=scale, ema_freeze_delay=rnd.choice([None, None, 0, 5]))
   if hasq:
     kq = Proxy(Q.quantized_bits(8, 2, 1, alpha=1.0), "kernel", log)      # grid 2^-5
     bq = Proxy(Q.quantized_bits(8, 3, 1, alpha=1.0), "bias", log)        # grid 2^-4
@@ -82,7 +84,9 @@ def layer_case(rnd, center_only=None):
   set_named(lay, vals)
   x = rints(rnd, (1, h, w, cin), -6, 6, EX)
   del log[:]
+  w_before = [w.copy() for w in lay.get_weights()]
   y = lay(tf.constant(x), training=False).numpy()
+  state_ok = all(np.array_equal(a, b_) for a, b_ in zip(w_before, lay.get_weights()))     # inference leaves every variable alone
   fk, fb = [np.asarray(v) for v in lay.get_folded_weights()]
   g = {"sh": s, "sw": s, "dh": d, "dw": d, "pad": pad}
   ev = {"kind": "layer", "dw": int(dw), "mode": mode, "g": g, "usebias": int(usebias), "hasq": int(hasq), "center": int(center),
@@ -112,6 +116,7 @@ def layer_case(rnd, center_only=None):
     _ = bn(yy, training=False)
     set_named(bn, {"gamma": gam, "beta": beta, "moving_mean": mean, "moving_variance": var})
     ev["stock"] = int(np.array_equal(bn(yy, training=False).numpy(), y))
+  ev["stock"] = int(ev["stock"] and state_ok)
   return ev
 
 
@@ -121,8 +126,12 @@ def model_cases(rnd, events, errors, n):
     try:
       hasq = rnd.random() < 0.6
       kq = "quantized_bits(8,2,1,alpha=1.0)" if hasq else None
+      # or a kernel quantizer with a data-dependent scale that is not idempotent at 3 bits: the unfolded layer has to
+      # quantize the folded kernel exactly once, like the folded layer does
+      auto = hasq and rnd.random() < 0.4
+      kq1 = "quantized_bits(3,0,1,alpha='auto_po2')" if auto else kq
       i = L.Input((5, 5, 2))
-      x = QConv2DBatchnorm(3, (2, 2), kernel_quantizer=kq, bias_quantizer=kq, use_bias=rnd.random() < 0.5, epsilon=EPS,
+      x = QConv2DBatchnorm(3, (2, 2), kernel_quantizer=kq1, bias_quantizer=kq, use_bias=rnd.random() < 0.5, epsilon=EPS,
                            folding_mode=rnd.choice(["ema_stats_folding", "batch_stats_folding"]), name="f1")(i)
       x = QActivation("quantized_relu(6,2)")(x)
       x = QDepthwiseConv2DBatchnorm((2, 2), depthwise_quantizer=kq, bias_quantizer=kq, epsilon=EPS, name="f2")(x)
